@@ -152,6 +152,26 @@ def r1_no_soft_breaks_between_prose(w):
             descs = sorted({v.describe(strip_casts_(o)) for o in cnt})
             if cnt and all(d_.endswith('MarkupLine.breaks') and not d_.startswith(('call:', 'binop:', 'const')) for d_ in descs):
                 ok = True
+                # ... and on every line with breaks > 0: inside the per-line loop the only condition in front of the emission is `breaks > 0`
+                # (seed C08/5A: a look-ahead `pull_label` replaced the line end by a space when the next line starts with a label)
+                import cfg as _cfg
+                loops = _cfg.natural_loops(cm[0])
+                in_loop = set()
+                for h_, blocks_ in loops.items():
+                    if bi in blocks_:
+                        in_loop |= set(blocks_)
+                extra = []
+                for atom, vals, sw in v.guards(bi):
+                    if sw not in in_loop:
+                        continue
+                    if 'MarkupLine.breaks' in atom and atom.startswith(('binop:Gt(', 'binop:Ne(', 'binop:Ge(')) and vals == {True}:
+                        continue
+                    if atom.startswith('discr(') and 'next(' in atom:
+                        continue          # the loops' own exhaustion tests
+                    extra.append((atom[:80], sorted(map(str, vals))))
+                if extra:
+                    ok = False
+                    why_not = 'the line-end break is emitted only under a further condition %s: a line break between prose lines can be replaced or dropped' % extra[:2]
             else:
                 why_not = 'the repeat count is %s, not a plain copy of MarkupLine.breaks' % descs
     cons = {'stage': 'per-line loop', 'line_end': 'hardline x MarkupLine.breaks'}
